@@ -306,7 +306,11 @@ func (t *Tree) Generate(inv Invocation, tag string) (*GenResult, error) {
 	default:
 		return nil, Infra("unknown cwd mode %q", inv.CwdMode)
 	}
-	env := append(GoEnv(), "GOMAXPROCS=2")
+	// GOMAXPROCS is part of the environment too: go/packages parses and
+	// type-checks in goroutines, and the simulator cannot schedule those, but it
+	// can at least vary how many run at once.
+	procs := []string{"1", "2", "4", "8"}[(uint64(len(inv.Dir))*7+uint64(len(inv.CwdMode))*3+uint64(len(tag)))%4]
+	env := append(GoEnv(), "GOMAXPROCS="+procs)
 	// The time zone is part of the environment a generation runs in: owned by
 	// the simulator, derived from the directory and the map seed.
 	zones := []string{"UTC", "Pacific/Kiritimati", "Etc/GMT+12", "Asia/Kolkata"}
